@@ -326,6 +326,73 @@ theorem mixture_invariant (π : X → ℝ≥0∞) (hπ : Measurable π)
   · exact ((hπ.comp measurable_fst).mul hjoint).aemeasurable
 end mixture
 
+/-! ### step-size randomisation for HMC: the joint measurability that `mixture_invariant` assumes holds for the
+    concrete family `u ↦ kernel with step u · h`, so the randomised transition is stationary outright -/
+section randomised
+variable {ι : Type} [Fintype ι]
+
+/-- the trajectory with every coefficient scaled by `u`, as a function of `(state, u)` -/
+def scaledTraj (vel grad : Vec ι → Vec ι) : List (Op ℝ) → Phase ι × ℝ → Phase ι
+  | [], p => p.1
+  | o :: os, p => scaledTraj vel grad os (stepProd vel grad (C01.scaleOp p.2 o) p.1, p.2)
+
+theorem scaledTraj_eq (vel grad : Vec ι → Vec ι) (ops : List (Op ℝ)) (x : Phase ι) (u : ℝ) :
+    scaledTraj vel grad ops (x, u) = proposeP vel grad (ops.map (C01.scaleOp u)) x := by
+  induction ops generalizing x with
+  | nil => rfl
+  | cons o os ih =>
+    simp only [scaledTraj, List.map_cons]
+    rw [ih]
+    simp only [proposeP, runOps_prod, List.foldl_cons]
+
+theorem scaledTraj_measurable (vel grad : Vec ι → Vec ι) (hv : Measurable vel) (hg : Measurable grad) (ops : List (Op ℝ)) :
+    Measurable (scaledTraj vel grad ops) := by
+  induction ops with
+  | nil => exact measurable_fst
+  | cons o os ih =>
+    have hstep : Measurable (fun p : Phase ι × ℝ => (stepProd vel grad (C01.scaleOp p.2 o) p.1, p.2)) := by
+      refine Measurable.prodMk ?_ measurable_snd
+      cases o with
+      | drift c =>
+        change Measurable (fun p : Phase ι × ℝ => (p.1.1 + (p.2 * c) • vel p.1.2, p.1.2))
+        exact ((measurable_fst.comp measurable_fst).add
+          ((measurable_snd.mul_const c).smul (hv.comp (measurable_snd.comp measurable_fst)))).prodMk
+          (measurable_snd.comp measurable_fst)
+      | kick c =>
+        change Measurable (fun p : Phase ι × ℝ => (p.1.1, p.1.2 - (p.2 * c) • grad p.1.1))
+        exact (measurable_fst.comp measurable_fst).prodMk
+          ((measurable_snd.comp measurable_fst).sub
+            ((measurable_snd.mul_const c).smul (hg.comp (measurable_fst.comp measurable_fst))))
+    exact ih.comp hstep
+
+/-- **HMC with a randomised step size is stationary**: the factor `u` is drawn from any probability law `ν`
+    (the code: uniform on [0.5, 1.5)) independently of the state, once per trajectory -/
+theorem hmc_randomised_invariant (U K : Vec ι → ℝ) (hU : Measurable U) (hK : Measurable K) (hKeven : ∀ p, K (-p) = K p)
+    (vel grad : Vec ι → Vec ι) (hv : Measurable vel) (hg : Measurable grad) (hodd : ∀ p, vel (-p) = -vel p)
+    (c : Coeffs ℝ) (i : Integrator) (h : ℝ) (n : Nat) (ν : Measure ℝ) [IsProbabilityMeasure ν]
+    (f : Vec ι → ℝ≥0∞) (hf : Measurable f) :
+    ∫⁻ x, gibbs U K x * (∫⁻ u, codeKernel U K vel grad (schedule c i (localStep true u h) n) f x ∂ν)
+        ∂((volume : Measure (Vec ι)).prod volume)
+      = ∫⁻ x, gibbs U K x * f x.1 ∂((volume : Measure (Vec ι)).prod volume) := by
+  have hH : Measurable (energy U K) := (hU.comp measurable_fst).add (hK.comp measurable_snd)
+  have hT := scaledTraj_measurable vel grad hv hg (schedule c i h n)
+  have hprop : ∀ (x : Phase ι) (u : ℝ),
+      proposeP vel grad (schedule c i (localStep true u h) n) x = scaledTraj vel grad (schedule c i h n) (x, u) := by
+    intro x u; rw [scaledTraj_eq, C01.randomised_scales_uniformly]
+  have hacc : Measurable (fun p : Phase ι × ℝ =>
+      ENNReal.ofReal (min 1 (Real.exp (energy U K p.1 - energy U K (scaledTraj vel grad (schedule c i h n) p))))) :=
+    ENNReal.measurable_ofReal.comp (measurable_const.min
+      (Real.measurable_exp.comp ((hH.comp measurable_fst).sub (hH.comp hT))))
+  refine mixture_invariant ((volume : Measure (Vec ι)).prod volume) ν (gibbs U K)
+    (ENNReal.measurable_ofReal.comp (Real.measurable_exp.comp hH.neg))
+    (fun u _ x => codeKernel U K vel grad (schedule c i (localStep true u h) n) f x) (fun x => f x.1) ?_ ?_
+  · simp only [codeKernel, hprop]
+    exact (hacc.mul (hf.comp (measurable_fst.comp hT))).add
+      ((measurable_const.sub hacc).mul (hf.comp (measurable_fst.comp measurable_fst)))
+  · intro u
+    exact hmc_invariant U K hU hK hKeven vel grad hv hg hodd c i (localStep true u h) n f hf
+end randomised
+
 /-! ### boxed targets in any dimension, Unit / Diagonal metric: stationarity **with** reflections
 
    `trajBox l u w g ops` is the model's own trajectory `runOps (diagVel w) g (boxRefl l u) ops` (the one the
